@@ -524,23 +524,41 @@ impl ClusterHandler for GenCommHandler<'_> {
                 let pase_sess_id =
                     matches!(sess.get_session_mode(), SessionMode::Pase { .. }).then(|| sess.id());
 
-                let fabric = state
+                // Persist the fabric and the network settings FIRST - prior to disarming, closing
+                // the commissioning window, dropping the PASE sessions and sending the other
+                // party a "success" status. If a store write fails, the command is answered with
+                // the error while the fail-safe is still armed: the commissioner can retry, and
+                // otherwise the expiry rolls the commissioning back. (Disarming first would leave
+                // a node that is neither committed nor rolled back.)
+                let fab_idx = state
+                    .failsafe
+                    .check_disarm(sess.get_session_mode(), &state.fabrics)?;
+
+                persist.store(state.fabrics.fabric(fab_idx)?)?;
+                ctx.networks().access(|networks| {
+                    let was_managed = networks.managed()?;
+
+                    networks.set_managed(true)?;
+
+                    let result = persist
+                        .persist_mut()
+                        .store(NETWORKS_KEY, |buf| networks.save(buf));
+
+                    if result.is_err() {
+                        // Not committed
+                        networks.set_managed(was_managed)?;
+                    }
+
+                    result
+                })?;
+
+                state
                     .failsafe
                     .disarm(sess.get_session_mode(), &mut state.fabrics)?;
 
                 state.pase.close_comm_window(notify_mdns, notify_change)?;
                 state.sessions.remove_pase(pase_sess_id);
                 ctx.exchange().matter().transport().notify_session_removed();
-
-                // Finally, persist the fabric and the network settings, prior to sending the other party a "success" status
-                persist.store(fabric)?;
-                ctx.networks().access(|networks| {
-                    networks.set_managed(true)?;
-
-                    persist
-                        .persist_mut()
-                        .store(NETWORKS_KEY, |buf| networks.save(buf))
-                })?;
 
                 info!("Commissioning complete, fabric and network settings persisted");
 
